@@ -154,7 +154,10 @@ def keyid_mutants(rng, blob_obj):
         for flags in (1, 3):
             out.append(dataclasses.replace(blob_obj, key_identifier=dataclasses.replace(k, flags=flags, key_info=ki)).pack())
     # protection descriptor values
-    for sid in ["S-1-5-4294967296", "S-1-281474976710656-1", "S-1-5-18\n", "", "S-1-5", "S-1-5-" + "-".join(["1"] * 16), "S-1-5-٣", "x" * 300]:
+    hostile = ["S-1-5" + "-00000000021" * 15 + "!", "S-1-5" + "-0000000000000000000021" * 15 + "x", "S-1-" + "0" * 40 + "5-21!", "S-1-5" + "-1" * 15 + "-",
+               "S-1-5-" + "0" * 60 + "!", "S-1-5" + "-0" * 15 + "-", "S-1-5" + "-00000000021" * 14 + "-4294967296", "S-1-5-" + "7" * 4000, "S-1-5" + "-0000000001" * 15 + "-1",
+               "S-1-0000000000000005" + "-000000000000021" * 15 + " "]
+    for sid in ["S-1-5-4294967296", "S-1-281474976710656-1", "S-1-5-18\n", "", "S-1-5", "S-1-5-" + "-".join(["1"] * 16), "S-1-5-٣", "x" * 300] + hostile:
         out.append(dataclasses.replace(blob_obj, protection_descriptor=SIDDescriptor(sid)).pack())
     for alg in ("1.2.3", "2.16.840.1.101.3.4.1.46"):
         out.append(dataclasses.replace(blob_obj, enc_cek_algorithm=alg).pack())
@@ -163,8 +166,17 @@ def keyid_mutants(rng, blob_obj):
     return out
 
 
+class WallClockExceeded(BaseException):
+    """work done outside the interpreter (a regular-expression engine backtracking, a C loop) shows in no step count, only on the clock"""
+
+
+def _on_alarm(signum, frame):
+    raise WallClockExceeded()
+
+
 def work(job):
-    import random, check
+    import random, check, signal
+    signal.signal(signal.SIGALRM, _on_alarm)
     real, kind, ri, seed, thorough = job
     ctx = check.Ctx("C05", "thorough" if thorough else "quick", seed)
     ctx.rng = random.Random(f"C05:{seed}:{job}")
@@ -220,12 +232,19 @@ def work(job):
                     s.load(rec)
                 s.log.kdf_budget = 200
                 s.log.reset_budget()
+                wall = 20 + len(data) / 20000          # seconds: three orders of magnitude above what any blob of this size needs
+                signal.setitimer(signal.ITIMER_REAL, wall)
                 try:
                     with clientsim.StepCounter(budget) as sc:
                         out = s.unprotect(data, no_reply=True)
                 except clientsim.StepBudgetExceeded:
                     out = "err Other:StepBudgetExceeded"
                     s.steps.append((f"ubegin {hx(data)}", out))
+                except WallClockExceeded:
+                    out = f"err Other:WallClockExceeded({wall:.0f}s)"
+                    s.steps.append((f"ubegin {hx(data)}", out))
+                finally:
+                    signal.setitimer(signal.ITIMER_REAL, 0)
                 nk = getattr(s.log, "nkdf", 0)
                 biggest = max([len(a) for c in s.log.calls for a in c[1:] if isinstance(a, (bytes, bytearray))] + [0])
             ctx.count(f"{'real' if real else 'toy'}:{kind}")
@@ -291,10 +310,17 @@ def replay(ctx, payload):
         if v.get("root_key_loaded", True):
             s.load(rec)
         s.log.kdf_budget = 200
+        import signal
+        signal.signal(signal.SIGALRM, _on_alarm)
+        signal.setitimer(signal.ITIMER_REAL, 20 + len(data) / 20000)
         try:
             with clientsim.StepCounter(200 * len(data) + 20000):
                 out = s.unprotect(data, no_reply=True)
         except clientsim.StepBudgetExceeded:
             out = "err Other:StepBudgetExceeded"
+        except WallClockExceeded:
+            out = "err Other:WallClockExceeded"
+        finally:
+            signal.setitimer(signal.ITIMER_REAL, 0)
     print("unprotect →", out, "KDF calls:", getattr(s.log, "nkdf", 0))
     return out is None or not out.startswith("err ") or out[4:] in DELIBERATE
